@@ -28,13 +28,17 @@ def extract_basic_authorization(headers):
     if not auth or " " not in auth:
         return None, None
 
-    auth_type, auth_token = auth.split(None, 1)
+    auth_parts = auth.split(None, 1)
+    if len(auth_parts) != 2:
+        return None, None
+
+    auth_type, auth_token = auth_parts
     if auth_type.lower() != "basic":
         return None, None
 
     try:
         query = to_unicode(base64.b64decode(auth_token))
-    except (binascii.Error, TypeError):
+    except (binascii.Error, TypeError, UnicodeDecodeError):
         return None, None
     if ":" in query:
         username, password = query.split(":", 1)
